@@ -491,6 +491,150 @@ func (b *backendRun) doCommit(w []string) (skip bool, opLines []string) {
 	return false, opLines
 }
 
+// gateDB makes NewBatch report that the batch exists and then wait: two commits can be made to OVERLAP
+// (both batches open before either commits), as candidate roots computed concurrently do.
+type gateDB struct {
+	api.NodeDB
+	entered chan struct{}
+	release chan struct{}
+}
+
+func (g *gateDB) NewBatch(oldRoot node.Root, version uint64, chunk bool) (api.Batch, error) {
+	bt, err := g.NodeDB.NewBatch(oldRoot, version, chunk)
+	g.entered <- struct{}{}
+	<-g.release
+	return bt, err
+}
+
+// doCommitPair: `commit2 <tagA> <tagB> <type> <version> <src> <writesA> <writesB>` — two candidates of one
+// version derived from the same source whose batches overlap: NewBatch(A), NewBatch(B), Commit(A), Commit(B).
+func (b *backendRun) doCommitPair(w []string) (skip bool, opLines []string) {
+	tags, srcTag := [2]string{w[1], w[2]}, w[5]
+	t, _ := strconv.Atoi(w[3])
+	v, _ := strconv.Atoi(w[4])
+	var src *rootRec
+	srcCont := contents{}
+	if srcTag != "-" {
+		s, ok := b.tags[srcTag]
+		if !ok || (s.v < v && s.v > b.last) || (s.v <= b.last && !b.fin[fmt.Sprintf("%d:%d:%d", s.v, s.t, s.id)]) {
+			return true, nil
+		}
+		src = &s
+		srcCont = b.cont[srcTag]
+	}
+	type side struct {
+		want  contents
+		seq   [][2]string
+		nlog  *nodeLog
+		plog  *pathLog
+		gate  *gateDB
+		res   string
+		h     hash.Hash
+		hset  bool
+		done  chan struct{}
+		tree  mkvs.Tree
+		panic string
+	}
+	var sides [2]*side
+	for i := 0; i < 2; i++ {
+		sd := &side{done: make(chan struct{})}
+		sd.want, sd.seq = applyWrites(srcCont, w[6+i])
+		var ndb api.NodeDB = b.db
+		if b.nlog != nil {
+			sd.nlog = newNodeLog()
+			ndb = &logDB{NodeDB: b.db, log: sd.nlog}
+		}
+		if b.plog != nil {
+			sd.plog = &pathLog{}
+			sd.plog.reset()
+			ndb = &plogDB{NodeDB: b.db, log: sd.plog, ht: b.ht}
+		}
+		sd.gate = &gateDB{NodeDB: ndb, entered: make(chan struct{}, 1), release: make(chan struct{}, 1)}
+		if src == nil {
+			sd.tree = mkvs.New(nil, sd.gate, rootType(t))
+		} else {
+			r := src.root()
+			r.Type = rootType(t)
+			sd.tree = mkvs.NewWithRoot(nil, sd.gate, r)
+		}
+		sides[i] = sd
+	}
+	run := func(sd *side) {
+		defer close(sd.done)
+		defer func() {
+			if p := recover(); p != nil {
+				sd.res = "panic:" + strings.ReplaceAll(fmt.Sprint(p), " ", "_")
+				sd.panic = fmt.Sprint(p)
+			}
+		}()
+		for _, kv := range sd.seq {
+			var err error
+			if kv[1] == "" {
+				err = sd.tree.Remove(ctx, []byte(kv[0]))
+			} else {
+				err = sd.tree.Insert(ctx, []byte(kv[0]), []byte(kv[1]))
+			}
+			if err != nil {
+				sd.res = "src_unreadable"
+				return
+			}
+		}
+		_, hh, err := sd.tree.Commit(ctx, ns, uint64(v))
+		if err != nil {
+			sd.res = errName(err)
+			return
+		}
+		sd.res, sd.h, sd.hset = "ok", hh, true
+	}
+	// A opens its batch, then B opens its batch, then A commits, then B commits.
+	for i := 0; i < 2; i++ {
+		go run(sides[i])
+		select {
+		case <-sides[i].gate.entered:
+		case <-sides[i].done: // failed before NewBatch
+		}
+	}
+	for i := 0; i < 2; i++ {
+		select {
+		case sides[i].gate.release <- struct{}{}:
+		default:
+		}
+		<-sides[i].done
+		sides[i].tree.Close()
+	}
+	sv, sh := v, 0
+	if src != nil {
+		sv, sh = src.v, src.id
+	}
+	for i, sd := range sides {
+		if sd.panic != "" {
+			b.out.panicked = fmt.Sprintf("%s: %s", strings.Join(w, " "), sd.panic)
+		}
+		hid := 0
+		if sd.hset {
+			hid = b.ht.id(sd.h)
+			rec := rootRec{t: t, v: v, h: sd.h, id: hid}
+			b.tags[tags[i]] = rec
+			b.cont[tags[i]] = sd.want
+			b.addKnown(rec)
+			b.rootCont[fmt.Sprintf("%d %d %d", v, t, hid)] = sd.want.String()
+		}
+		if sd.res == "restricted" {
+			b.out.restrict = true
+		}
+		line := fmt.Sprintf("commit %d %d %d %d %d %s %s", t, v, sv, sh, hid, sd.res, sd.want.String())
+		b.out.lines = append(b.out.lines, line)
+		opLines = append(opLines, line)
+		if sd.nlog != nil {
+			b.out.blines = append(b.out.blines, sd.nlog.commitLine(b.ht, t, v, sv, sh, hid, sd.res))
+		}
+		if sd.plog != nil {
+			b.out.plines = append(b.out.plines, sd.plog.commitLine(t, v, sv, sh, hid, sd.res))
+		}
+	}
+	return false, opLines
+}
+
 func (b *backendRun) resolveRoots(v int, tags string) ([]node.Root, string, bool) {
 	var roots []node.Root
 	var ids []string
@@ -634,6 +778,8 @@ func runBackend(kind string, ops []string, ht *hashTable, withNodeLog bool) *run
 		switch {
 		case w[0] == "commit" && (len(w) == 6 || (len(w) == 7 && w[6] == "live")):
 			skip, opLines = b.doCommit(w)
+		case w[0] == "commit2" && len(w) == 8:
+			skip, opLines = b.doCommitPair(w)
 		case w[0] == "finalize" && len(w) == 3:
 			skip, opLines = b.doFinalize(w)
 		case w[0] == "prune" && len(w) == 2:
@@ -1157,6 +1303,27 @@ func genCase(r *hlib.Rng, nver int, res *hlib.Result) []string {
 			tag := newTag()
 			c2, _ := applyWrites(base, wl)
 			cont[tag] = c2
+			if c+1 < ncand && src == prevState && !twoState && r.Chance(1, 6) {
+				// two candidates whose batches overlap (both opened before either commits)
+				tagA, tagB := newTag(), newTag()
+				var ws2 []string
+				for j := 1 + r.Intn(3); j > 0; j-- {
+					ws2 = append(ws2, keys[r.Intn(len(keys))]+"="+vals[r.Intn(len(vals))])
+				}
+				wlA := "-"
+				if len(ws) > 0 {
+					wlA = strings.Join(ws, ",")
+				}
+				wlB := strings.Join(ws2, ",")
+				cA, _ := applyWrites(base, wlA)
+				cB, _ := applyWrites(base, wlB)
+				cont[tagA], cont[tagB] = cA, cB
+				ops = append(ops, fmt.Sprintf("commit2 %s %s 0 %d %s %s %s", tagA, tagB, v, src, wlA, wlB))
+				cands = append(cands, tagA, tagB)
+				res.Count("gen:overlapping-candidate-batches")
+				c++
+				continue
+			}
 			liveFlag := ""
 			if liveTrees && (r.Chance(2, 3) || (liveCand == "" && src == prevState)) {
 				// committed by the long-lived tree that holds `src` (if any) and kept for later versions
